@@ -15,6 +15,9 @@
    conc_joins_then_reports           the block's error is decided after every child has ended
    for_cap_counts_every_condition    for_loop's fuel: every evaluation of the condition counts against maxExecuteNum = 10000
    for_step_after_continue           the step runs after `continue` (C02_for_step_after_continue)
+   engine_state_is_the_result_map    Engine/Spec.v: an engine carries ONE piece of state from call to call, the result map, reset when a call starts
+   no_package_level_state            a call's outcome is a function of its own inputs: nothing — no buffer pool, cache or table — survives a call
+                                     (a failed one in particular) in a package-level variable of the interpreter, the engine, the data context
    tree_read_only_at_run_time        evaluation is a function of (tree, data context, locals): Sem.v's evaluators take the tree as a value and
                                      return no new tree — no Evaluate*/Execute* method stores into its own node, so executions that share a
                                      compiled tree (pool instances; a rule named twice) share nothing through it *)
@@ -32,21 +35,26 @@ Definition missing (facts : list fact) (names : list string) : list string :=
   filter (fun n => negb (holds facts n)) names.
 
 Definition facts_C02 := ["statements_protocol"; "return_protocol"; "for_cap_counts_every_condition"; "for_step_after_continue"].
-Definition facts_C09 := ["rule_execute_recovers"; "call_recover_covers_arguments_FunctionCall"; "call_recover_covers_arguments_MethodCall";
+Definition facts_C09 := ["no_package_level_state"; "rule_execute_recovers"; "call_recover_covers_arguments_FunctionCall"; "call_recover_covers_arguments_MethodCall";
                          "call_recover_covers_arguments_ThreeLevelCall"; "for_cap_counts_every_condition";
                          "conc_counts_every_child"; "conc_one_goroutine_per_child"; "conc_joins_then_reports"].
-Definition facts_C11 := ["statements_protocol"; "return_protocol"].
-Definition facts_C15 := ["rule_locals_fresh_map"; "rule_execute_recovers"; "tree_read_only_at_run_time"].
+Definition facts_C11 := ["statements_protocol"; "return_protocol"; "no_package_level_state"; "engine_state_is_the_result_map"].
+Definition facts_C15 := ["no_package_level_state"; "rule_locals_fresh_map"; "rule_execute_recovers"; "tree_read_only_at_run_time"].
 Definition facts_C18 := ["conc_counts_every_child"; "conc_one_goroutine_per_child"; "conc_joins_then_reports"; "tree_read_only_at_run_time"].
-Definition facts_C20 := ["call_recover_covers_arguments_FunctionCall"; "call_recover_covers_arguments_MethodCall";
+Definition facts_C03 := ["no_package_level_state"].
+Definition facts_C20 := ["no_package_level_state"; "call_recover_covers_arguments_FunctionCall"; "call_recover_covers_arguments_MethodCall";
                          "call_recover_covers_arguments_ThreeLevelCall"].
 
+(* the engine-level properties: every call starts from the rule set and its arguments alone *)
+Definition facts_engine := ["engine_state_is_the_result_map"; "no_package_level_state"].
+
 Definition facts_of (pid : string) : list string :=
-  if String.eqb pid "C02" then facts_C02 else if String.eqb pid "C09" then facts_C09 else
+  if String.eqb pid "C04" || String.eqb pid "C05" || String.eqb pid "C12" || String.eqb pid "C13" || String.eqb pid "C14" then facts_engine else
+  if String.eqb pid "C02" then facts_C02 else if String.eqb pid "C03" then facts_C03 else if String.eqb pid "C09" then facts_C09 else
   if String.eqb pid "C11" then facts_C11 else if String.eqb pid "C15" then facts_C15 else
   if String.eqb pid "C18" then facts_C18 else if String.eqb pid "C20" then facts_C20 else [].
 
 Definition all_fact_names : list string :=
   ["call_recover_covers_arguments_FunctionCall"; "call_recover_covers_arguments_MethodCall"; "call_recover_covers_arguments_ThreeLevelCall";
-   "conc_counts_every_child"; "conc_joins_then_reports"; "conc_one_goroutine_per_child"; "for_cap_counts_every_condition";
-   "for_step_after_continue"; "return_protocol"; "rule_execute_recovers"; "rule_locals_fresh_map"; "statements_protocol"; "tree_read_only_at_run_time"].
+   "conc_counts_every_child"; "conc_joins_then_reports"; "conc_one_goroutine_per_child"; "engine_state_is_the_result_map"; "for_cap_counts_every_condition";
+   "for_step_after_continue"; "no_package_level_state"; "return_protocol"; "rule_execute_recovers"; "rule_locals_fresh_map"; "statements_protocol"; "tree_read_only_at_run_time"].
